@@ -1,11 +1,16 @@
+\* Exhaustive design-level check of P_C09 (one request, two workers, every verb); ./check C09 generates
+\* this and the other configurations (load-state parts, liveness under FairSpec, simulation of three
+\* requests, one run per open deviation, generator batches, trace validation) under .work/C09/.
 SPECIFICATION Spec
 CONSTANTS
   Workers = {1, 2}
-  Reqs = {1, 2}
+  Reqs = {1}
   Verbs = {"worker", "workerBad", "query", "load", "stopHard", "stopSoft"}
   T = 1
-  Parts = 2
-  MaxAns = 2
+  Parts = 1
+  MaxDup = 1
+  MaxProc = 1
+  MaxQueue = 2
   Deviations = {}
 INVARIANTS TypeOK P_C09a_AtMostOneFinal P_C09b_OkMeansAllAcked P_C09d_RightClient P_C09e_NoStaleInFlight P_C09_AnswersFollowTasks
 CHECK_DEADLOCK FALSE
